@@ -53,6 +53,42 @@ func monRawServer(prop string) Monitor {
 		if tr.Deadlock != "" {
 			add("C09", "goroutines_blocked_at_exit", tr.Steps, "%s", tr.Deadlock)
 		}
+		// ... and nothing is kept for a call that is over: whatever the peer sent, once the caller has been given the RPC's
+		// terminal result the endpoint holds no table entry for it at the next quiescent point (long before the peer hangs up)
+		ix := buildWireIndex(tr)
+		for _, sn := range tr.Snapshots {
+			if (sn.Phase != "drain1" && sn.Phase != "drain2") || sn.Parked != 0 || len(sn.ClientTables) == 0 {
+				continue
+			}
+			if tun.DoneStep >= 0 && tun.DoneStep <= sn.Step {
+				continue
+			}
+			for i := range c.RPCs {
+				k, ok := ix.keyOf[i]
+				if !ok {
+					continue
+				}
+				told := -1
+				for _, o := range tr.Ops {
+					if o.RPC != i || o.Side != "caller" || o.Pending() {
+						continue
+					}
+					if (o.Kind == "recv" && o.Code != CodeNil) || o.Kind == "invoke" {
+						if told < 0 || o.End < told {
+							told = o.End
+						}
+					}
+				}
+				if told < 0 || told >= sn.Step {
+					continue
+				}
+				for _, id := range sn.ClientTables[0] {
+					if id == k.id {
+						add("C09", "table_entry_kept_after_call_returned", sn.Step, "stream %d (rpc %d) is still in the client's stream table at the quiescent step %d although its caller was given the RPC's terminal result at step %d: the endpoint keeps state for as long as the peer likes", id, i, sn.Step, told)
+					}
+				}
+			}
+		}
 		// --- no bloat: memory follows the data that arrived, never the size a peer merely announced
 		if tr.AllocBytes > allocBound {
 			var m uint64
